@@ -16,6 +16,13 @@
 -/
 import PyTough.Model.Fixed
 import PyTough.Gen.Sections
+/-- `c!"abc"` is the character list `['a','b','c']` (string literals are opaque to the kernel, character
+    lists are not: everything the proofs evaluate is written with this macro) -/
+macro:max "c!" s:str : term => do
+  let cs := s.getString.toList
+  let elems := cs.toArray.map fun c => Lean.Syntax.mkCharLit c
+  if cs.isEmpty then `(([] : List Char)) else `([$elems,*])
+
 namespace Model
 open Py
 open Gen.Sections (Rec)
@@ -232,15 +239,14 @@ def untilKeyword (rf : ReadFn) (r : Rec) (keywords : List Str) :
 structure Tabs where
   tab : List (Str × Rec)
 
-def Tabs.get (T : Tabs) (n : String) : Except Exc Rec :=
-  match Gen.Sections.lookup T.tab n.toList with
+def Tabs.get (T : Tabs) (n : Str) : Except Exc Rec :=
+  match Gen.Sections.lookup T.tab n with
   | some r => .ok r
   | none => .error .keyError
 
 def mainTabs : Tabs := ⟨Gen.Sections.mainTable⟩
 def xpTabs : Tabs := ⟨Gen.Sections.xpTable⟩
 
-def k (s : String) : Str := s.toList
 
 /-! ### ROCKS -/
 
@@ -263,7 +269,7 @@ structure Rock where
   deriving Repr, DecidableEq
 
 def defaultRockExtra : Dict :=
-  [(k "compressibility", .real 0), (k "expansivity", .real 0), (k "dry_conductivity", .real 0), (k "tortuosity", .real 0)]
+  [(c!"compressibility", .real 0), (c!"expansivity", .real 0), (c!"dry_conductivity", .real 0), (c!"tortuosity", .real 0)]
 
 /-- `x >= n` for a Python number -/
 def Val.ge (v : Val) (n : Int) : Except Exc Bool :=
@@ -277,20 +283,20 @@ def writeRP (r : Rec) (p : Option RP) : Except Exc Str :=
   | some p => writeValuesLine r ([p.type, Val.none] ++ p.params)
 
 def writeRock (T : Tabs) (rt : Rock) : Except Exc (List Str) := do
-  let l1 ← writeValuesLine (← T.get "rocks1")
+  let l1 ← writeValuesLine (← T.get c!"rocks1")
     ([rt.name, rt.nad, rt.density, rt.porosity] ++ rt.perm ++ [rt.conductivity, rt.specificHeat])
   if rt.nad == .none then pure [l1] else
   if !(← rt.nad.ge 1) then pure [l1] else
-  let l2 ← writeValueLine (← T.get "rocks1.1") rt.extra
+  let l2 ← writeValueLine (← T.get c!"rocks1.1") rt.extra
   if !(← rt.nad.ge 2) then pure [l1, l2] else
-  let l3 ← writeRP (← T.get "rocks1.2") rt.rp
-  let l4 ← writeRP (← T.get "rocks1.2") rt.cp
+  let l3 ← writeRP (← T.get c!"rocks1.2") rt.rp
+  let l4 ← writeRP (← T.get c!"rocks1.2") rt.cp
   pure [l1, l2, l3, l4]
 
 /-- `write_rocktypes` -/
 def writeRocks (T : Tabs) (rs : List Rock) : Except Exc (List Str) := do
   let ls ← rs.mapM (writeRock T)
-  pure ([nl (k "ROCKS")] ++ ls.flatten ++ [nl []])
+  pure ([nl (c!"ROCKS")] ++ ls.flatten ++ [nl []])
 
 def readRPLine (rf : ReadFn) (r : Rec) (line : Str) : Except Exc RP := do
   let vs ← readValues rf r line
@@ -298,18 +304,18 @@ def readRPLine (rf : ReadFn) (r : Rec) (line : Str) : Except Exc RP := do
 
 /-- one rock type: header line (already padded) + continuation lines -/
 def readRock (rf : ReadFn) (T : Tabs) (line : Str) (rest : List Str) : Except Exc (Rock × Nat) := do
-  let vs ← readValues rf (← T.get "rocks1") line
+  let vs ← readValues rf (← T.get c!"rocks1") line
   match vs with
   | [name, nad, density, porosity, k1, k2, k3, cond, sh] =>
     let rt : Rock := { name, nad, density, porosity, perm := [k1, k2, k3], conductivity := cond, specificHeat := sh,
                        extra := defaultRockExtra, rp := none, cp := none }
     let nad0 := if nad == .none then Val.int 0 else nad
     if !(← nad0.ge 1) then pure (rt, 0) else
-    let ex ← readValueLine rf (← T.get "rocks1.1") rt.extra (readline rest).1
+    let ex ← readValueLine rf (← T.get c!"rocks1.1") rt.extra (readline rest).1
     let rt := { rt with extra := ex }
     if !(← nad0.ge 2) then pure (rt, 1) else
-    let rp ← readRPLine rf (← T.get "rocks1.2") (readline (rest.drop 1)).1
-    let cp ← readRPLine rf (← T.get "rocks1.3") (readline (rest.drop 2)).1
+    let rp ← readRPLine rf (← T.get c!"rocks1.2") (readline (rest.drop 1)).1
+    let cp ← readRPLine rf (← T.get c!"rocks1.3") (readline (rest.drop 2)).1
     pure ({ rt with rp := some rp, cp := some cp }, 3)
   | _ => .error .valueError     -- unpacking a record of another length
 
@@ -341,22 +347,22 @@ structure Block where
   deriving Repr, DecidableEq
 
 def writeBlock (T : Tabs) (b : Block) : Except Exc Str := do
-  let r ← T.get "blocks"
+  let r ← T.get c!"blocks"
   let c := match b.centre with
     | none => [Val.none, Val.none, Val.none]
     | some c => c
   match b.centre with
   | none =>
     -- write_value_line(blkw, 'blocks'): x, y, z are not attributes
-    writeValueLine r [(k "name", .str (unfixBlockname b.name)), (k "nseq", b.nseq), (k "nadd", b.nadd),
-                      (k "rocktype", .str b.rock), (k "volume", b.volume), (k "ahtx", b.ahtx), (k "pmx", b.pmx)]
+    writeValueLine r [(c!"name", .str (unfixBlockname b.name)), (c!"nseq", b.nseq), (c!"nadd", b.nadd),
+                      (c!"rocktype", .str b.rock), (c!"volume", b.volume), (c!"ahtx", b.ahtx), (c!"pmx", b.pmx)]
   | some _ =>
     writeValuesLine r ([.str (unfixBlockname b.name), b.nseq, b.nadd, .str b.rock, b.volume, b.ahtx, b.pmx] ++ c)
 
 /-- `write_blocks` -/
 def writeBlocks (T : Tabs) (bs : List Block) : Except Exc (List Str) := do
   let ls ← bs.mapM (writeBlock T)
-  pure ([nl (k "ELEME")] ++ ls ++ [nl []])
+  pure ([nl (c!"ELEME")] ++ ls ++ [nl []])
 
 /-- rock type of a block line: by name, blank = first, else by 1-based index (negative indices wrap) -/
 def lookupRock (rocks : List Rock) (rockname : Str) : Except Exc Str :=
@@ -374,7 +380,7 @@ def lookupRock (rocks : List Rock) (rockname : Str) : Except Exc Str :=
       else .error .generic
 
 def readBlock (rf : ReadFn) (T : Tabs) (rocks : List Rock) (line : Str) (_rest : List Str) : Except Exc (Block × Nat) := do
-  let vs ← readValues rf (← T.get "blocks") line
+  let vs ← readValues rf (← T.get c!"blocks") line
   match vs with
   | [name, nseq, nadd, rockname, volume, ahtx, pmx, x, y, z] =>
     let name ← fixBlockname (← name.str?)
@@ -408,17 +414,17 @@ structure Conn where
   deriving Repr, DecidableEq
 
 def writeConn (T : Tabs) (c : Conn) : Except Exc Str := do
-  writeValuesLine (← T.get "connections")
+  writeValuesLine (← T.get c!"connections")
     ([.str (unfixBlockname c.b1), .str (unfixBlockname c.b2), c.nseq, c.nad1, c.nad2, c.direction] ++ c.dist ++
      [c.area, c.dircos, c.sigma])
 
 /-- `write_connections` -/
 def writeConns (T : Tabs) (cs : List Conn) : Except Exc (List Str) := do
   let ls ← cs.mapM (writeConn T)
-  pure ([nl (k "CONNE")] ++ ls ++ [nl []])
+  pure ([nl (c!"CONNE")] ++ ls ++ [nl []])
 
 def readConn (rf : ReadFn) (T : Tabs) (blocks : List Block) (line : Str) (_rest : List Str) : Except Exc (Conn × Nat) := do
-  let vs ← readValues rf (← T.get "connections") line
+  let vs ← readValues rf (← T.get c!"connections") line
   match vs with
   | [n1, n2, nseq, nad1, nad2, isot, d1, d2, areax, betax, sigx] =>
     let b1 ← fixBlockname (← n1.str?)
@@ -434,7 +440,7 @@ def addConn (cs : List Conn) (c : Conn) : List Conn :=
 
 /-- `read_connections` (stops at a blank line or at `+++`) -/
 def readConns (rf : ReadFn) (T : Tabs) (blocks : List Block) (ls : List Str) : Except Exc (List Conn × List Str) := do
-  let (cs, rest) ← untilBlank padstring (fun l => startsWith l (k "+++")) (readConn rf T blocks) ls
+  let (cs, rest) ← untilBlank padstring (fun l => startsWith l (c!"+++")) (readConn rf T blocks) ls
   pure (cs.foldl addConn [], rest)
 
 /-! ### GENER -/
@@ -459,7 +465,7 @@ structure Gener where
 
 /-- `abs(ltab)` when `ltab and type != 'DELV'`, else 1 (writer) / 0 (reader: no table) -/
 def tableTimes (ltab type : Val) : Except Exc (Option Nat) :=
-  if ltab.truthy && type != .str (k "DELV") then
+  if ltab.truthy && type != .str (c!"DELV") then
     match ltab with
     | .int i => .ok (some i.natAbs)
     | .real r => .ok (some r.floor.natAbs)     -- only integral values are meaningful
@@ -467,27 +473,27 @@ def tableTimes (ltab type : Val) : Except Exc (Option Nat) :=
   else .ok none
 
 def writeGener (T : Tabs) (g : Gener) : Except Exc (List Str) := do
-  let d : Dict := [(k "name", .str (unfixBlockname g.name)), (k "block", .str (unfixBlockname g.block)),
-                   (k "nseq", g.nseq), (k "nadd", g.nadd), (k "nads", g.nads), (k "type", g.type), (k "ltab", g.ltab),
-                   (k "itab", g.itab), (k "gx", g.gx), (k "ex", g.ex), (k "hg", g.hg), (k "fg", g.fg)]
-  let l1 ← writeValueLine (← T.get "generator") d
+  let d : Dict := [(c!"name", .str (unfixBlockname g.name)), (c!"block", .str (unfixBlockname g.block)),
+                   (c!"nseq", g.nseq), (c!"nadd", g.nadd), (c!"nads", g.nads), (c!"type", g.type), (c!"ltab", g.ltab),
+                   (c!"itab", g.itab), (c!"gx", g.gx), (c!"ex", g.ex), (c!"hg", g.hg), (c!"fg", g.fg)]
+  let l1 ← writeValueLine (← T.get c!"generator") d
   let ntimes := ((← tableTimes g.ltab g.type).getD 1)
   if ntimes ≤ 1 then pure [l1] else
   let nlines := (ntimes + 3) / 4
-  let t ← writeChunks (← T.get "generation_times") 4 g.time ntimes nlines
-  let r ← writeChunks (← T.get "generation_rates") 4 g.rate ntimes nlines
-  let e ← if g.enthalpy.isEmpty then pure [] else writeChunks (← T.get "generation_enthalpy") 4 g.enthalpy ntimes nlines
+  let t ← writeChunks (← T.get c!"generation_times") 4 g.time ntimes nlines
+  let r ← writeChunks (← T.get c!"generation_rates") 4 g.rate ntimes nlines
+  let e ← if g.enthalpy.isEmpty then pure [] else writeChunks (← T.get c!"generation_enthalpy") 4 g.enthalpy ntimes nlines
   pure ([l1] ++ t ++ r ++ e)
 
 /-- `write_generators` -/
 def writeGeners (T : Tabs) (gs : List Gener) : Except Exc (List Str) :=
   if gs.isEmpty then .ok [] else do
     let ls ← gs.mapM (writeGener T)
-    pure ([nl (k "GENER")] ++ ls.flatten ++ [nl []])
+    pure ([nl (c!"GENER")] ++ ls.flatten ++ [nl []])
 
 /-- `read_generator(line, infile)` -/
 def readGener (rf : ReadFn) (T : Tabs) (line : Str) (rest : List Str) : Except Exc (Gener × Nat) := do
-  let vs ← readValues rf (← T.get "generator") line
+  let vs ← readValues rf (← T.get c!"generator") line
   match vs with
   | [block, name, nseq, nadd, nads, ltab, _empty, gentype, itab, gx, ex, hg, fg] =>
     let block ← fixBlockname (← block.str?)
@@ -499,10 +505,10 @@ def readGener (rf : ReadFn) (T : Tabs) (line : Str) (rest : List Str) : Except E
     | some ntimes =>
       if ntimes ≤ 1 then pure (g, 0) else
       let nlines := (ntimes + 3) / 4
-      let (t, r1) ← readChunks rf (← T.get "generation_times") nlines rest
-      let (r, r2) ← readChunks rf (← T.get "generation_rates") nlines r1
+      let (t, r1) ← readChunks rf (← T.get c!"generation_times") nlines rest
+      let (r, r2) ← readChunks rf (← T.get c!"generation_rates") nlines r1
       let hasE := !(isBlank (← itab.str?))
-      let (e, _) ← if hasE then readChunks rf (← T.get "generation_enthalpy") nlines r2 else pure ([], r2)
+      let (e, _) ← if hasE then readChunks rf (← T.get c!"generation_enthalpy") nlines r2 else pure ([], r2)
       pure ({ g with time := nonNone t, rate := nonNone r, enthalpy := nonNone e },
             if hasE then 3 * nlines else 2 * nlines)
   | _ => .error .valueError
@@ -525,11 +531,11 @@ def setIncon (d : List Incon) (e : Incon) : List Incon :=
   if d.any (·.name == e.name) then d.map (fun x => if x.name == e.name then e else x) else d ++ [e]
 
 def readIncon (rf : ReadFn) (T : Tabs) (line : Str) (rest : List Str) : Except Exc (Incon × Nat) := do
-  let vs ← readValues rf (← T.get "incon1") line
+  let vs ← readValues rf (← T.get c!"incon1") line
   match vs with
   | [blockname, nseq, nadd, porosity] =>
     let name ← fixBlockname (← blockname.str?)
-    let vars ← readValues rf (← T.get "incon2") (readline rest).1
+    let vars ← readValues rf (← T.get c!"incon2") (readline rest).1
     let nseq := zeroNone nseq
     let nadd := zeroNone nadd
     pure ({ name, porosity, vars := trimTrailingNones vars, seq := if nseq == .none then none else some (nseq, nadd) }, 1)
@@ -542,8 +548,8 @@ def readIncons (rf : ReadFn) (T : Tabs) (d : List Incon) (ls : List Str) : Excep
 
 def writeIncon (T : Tabs) (e : Incon) : Except Exc (List Str) := do
   let (nseq, nadd) := match e.seq with | some p => p | none => (Val.none, Val.none)
-  let l1 ← writeValuesLine (← T.get "incon1") [.str (unfixBlockname e.name), nseq, nadd, e.porosity]
-  let l2 ← writeValuesLine (← T.get "incon2") e.vars
+  let l1 ← writeValuesLine (← T.get c!"incon1") [.str (unfixBlockname e.name), nseq, nadd, e.porosity]
+  let l2 ← writeValuesLine (← T.get c!"incon2") e.vars
   pure [l1, l2]
 
 /-- `write_incons`: in block order, only for blocks of the grid -/
@@ -551,7 +557,7 @@ def writeIncons (T : Tabs) (blocks : List Block) (d : List Incon) : Except Exc (
   if d.isEmpty then .ok [] else do
     let es := blocks.filterMap fun b => d.find? (·.name == b.name)
     let ls ← es.mapM (writeIncon T)
-    pure ([nl (k "INCON")] ++ ls.flatten ++ [nl []])
+    pure ([nl (c!"INCON")] ++ ls.flatten ++ [nl []])
 
 abbrev Indom := List (Str × List Val)
 
@@ -559,7 +565,7 @@ def setIndom (d : Indom) (e : Str × List Val) : Indom :=
   if d.any (·.1 == e.1) then d.map (fun x => if x.1 == e.1 then e else x) else d ++ [e]
 
 def readIndomRec (rf : ReadFn) (T : Tabs) (line : Str) (rest : List Str) : Except Exc ((Str × List Val) × Nat) := do
-  let vars ← readValues rf (← T.get "indom2") (readline rest).1
+  let vars ← readValues rf (← T.get c!"indom2") (readline rest).1
   pure ((slice line 0 5, trimTrailingNones vars), 1)
 
 def readIndom (rf : ReadFn) (T : Tabs) (d : Indom) (ls : List Str) : Except Exc (Indom × List Str) := do
@@ -569,9 +575,9 @@ def readIndom (rf : ReadFn) (T : Tabs) (d : Indom) (ls : List Str) : Except Exc 
 def writeIndom (T : Tabs) (d : Indom) : Except Exc (List Str) :=
   if d.isEmpty then .ok [] else do
     let ls ← d.mapM fun (e : Str × List Val) => do
-      let l2 ← writeValuesLine (← T.get "indom2") e.2
+      let l2 ← writeValuesLine (← T.get c!"indom2") e.2
       pure [nl e.1, l2]
-    pure ([nl (k "INDOM")] ++ ls.flatten ++ [nl []])
+    pure ([nl (c!"INDOM")] ++ ls.flatten ++ [nl []])
 
 /-! ### TIMES -/
 
@@ -584,19 +590,19 @@ def OutputTimes.isEmpty (o : OutputTimes) : Bool := o.d.isEmpty && o.time.isNone
 
 def writeTimes (T : Tabs) (o : OutputTimes) : Except Exc (List Str) :=
   if o.isEmpty then .ok [] else do
-    let l1 ← writeValueLine (← T.get "output_times1") o.d
-    let n ← match o.d.get (k "num_times_specified") with | some v => pure v | none => .error .keyError
+    let l1 ← writeValueLine (← T.get c!"output_times1") o.d
+    let n ← match o.d.get (c!"num_times_specified") with | some v => pure v | none => .error .keyError
     let nlines ← ceilDiv n 8
     let ts ← if nlines = 0 then pure [] else match o.time with | some t => pure t | none => .error .keyError
-    let ls ← writeChunks (← T.get "output_times2") 8 ts ts.length nlines
-    pure ([nl (k "TIMES"), l1] ++ ls)
+    let ls ← writeChunks (← T.get c!"output_times2") 8 ts ts.length nlines
+    pure ([nl (c!"TIMES"), l1] ++ ls)
 
 def readTimes (rf : ReadFn) (T : Tabs) (o : OutputTimes) (ls : List Str) : Except Exc (OutputTimes × List Str) := do
   let (l1, rest) := readline ls
-  let d ← readValueLine rf (← T.get "output_times1") o.d l1
-  let n ← match d.get (k "num_times_specified") with | some v => pure v | none => .error .keyError
+  let d ← readValueLine rf (← T.get c!"output_times1") o.d l1
+  let n ← match d.get (c!"num_times_specified") with | some v => pure v | none => .error .keyError
   let nlines ← ceilDiv n 8
-  let (vs, rest) ← readChunks rf (← T.get "output_times2") nlines rest
+  let (vs, rest) ← readChunks rf (← T.get c!"output_times2") nlines rest
   pure ({ d, time := some (nonNone vs) }, rest)
 
 /-! ### one-line and flag sections -/
@@ -616,49 +622,49 @@ structure RPCap where
 
 def writeRPCap (T : Tabs) (x : RPCap) : Except Exc (List Str) :=
   if x.rp.isNone then .ok [] else do
-    let l1 ← writeRP (← T.get "relative_permeability") x.rp
-    let l2 ← writeRP (← T.get "capillarity") x.cp
-    pure [nl (k "RPCAP"), l1, l2]
+    let l1 ← writeRP (← T.get c!"relative_permeability") x.rp
+    let l2 ← writeRP (← T.get c!"capillarity") x.cp
+    pure [nl (c!"RPCAP"), l1, l2]
 
 def readRPCap (rf : ReadFn) (T : Tabs) (ls : List Str) : Except Exc (RPCap × List Str) := do
   let (l1, r1) := readline ls
-  let rp ← readRPLine rf (← T.get "relative_permeability") l1
+  let rp ← readRPLine rf (← T.get c!"relative_permeability") l1
   let (l2, r2) := readline r1
-  let cp ← readRPLine rf (← T.get "capillarity") l2
+  let cp ← readRPLine rf (← T.get c!"capillarity") l2
   pure ({ rp := some rp, cp := some cp }, r2)
 
 /-- a section that is one dictionary written with `write_value_line` under a keyword (LINEQ, SOLVR, MULTI) -/
-def writeDictSection (T : Tabs) (kw : String) (rec : String) (d : Dict) : Except Exc (List Str) :=
+def writeDictSection (T : Tabs) (kw : Str) (rec : Str) (d : Dict) : Except Exc (List Str) :=
   if d.isEmpty then .ok [] else do
     let l ← writeValueLine (← T.get rec) d
-    pure [nl (k kw), l]
+    pure [nl kw, l]
 
-def readDictSection (rf : ReadFn) (T : Tabs) (rec : String) (d : Dict) (ls : List Str) : Except Exc (Dict × List Str) := do
+def readDictSection (rf : ReadFn) (T : Tabs) (rec : Str) (d : Dict) (ls : List Str) : Except Exc (Dict × List Str) := do
   let (l, rest) := readline ls
   let d ← readValueLine rf (← T.get rec) d l
   pure (d, rest)
 
 /-- `if 'eos' in multi: multi['eos'] = multi['eos'].strip()` -/
 def stripEos (d : Dict) : Except Exc Dict :=
-  match d.get (k "eos") with
+  match d.get (c!"eos") with
   | none => .ok d
-  | some v => do pure (d.set (k "eos") (.str (strip (← v.str?))))
+  | some v => do pure (d.set (c!"eos") (.str (strip (← v.str?))))
 
 /-! ### DIFFU, SELEC -/
 
 def writeDiffusion (T : Tabs) (rows : List (List Val)) : Except Exc (List Str) :=
   if rows.isEmpty then .ok [] else do
-    let r ← T.get "diffusion"
+    let r ← T.get c!"diffusion"
     let ls ← rows.mapM (writeValuesLine r)
-    pure (nl (k "DIFFU") :: ls)
+    pure (nl (c!"DIFFU") :: ls)
 
 def readDiffusion (rf : ReadFn) (T : Tabs) (multi : Dict) (rows : List (List Val)) (ls : List Str) :
     Except Exc (List (List Val) × List Str) := do
-  match multi.get (k "num_components"), multi.get (k "num_phases") with
+  match multi.get (c!"num_components"), multi.get (c!"num_phases") with
   | some nc, some np =>
     let nc ← match nc with | .int i => pure i.toNat | _ => .error .typeError
     let np ← match np with | .int i => pure i | .none => .error .typeError | _ => .error .typeError
-    let r ← T.get "diffusion"
+    let r ← T.get c!"diffusion"
     let rec go : Nat → List Str → Except Exc (List (List Val) × List Str)
       | 0, ls => .ok ([], ls)
       | n + 1, ls =>
@@ -690,16 +696,16 @@ def writeSelection (T : Tabs) (s : Option Selection) : Except Exc (List Str) :=
   match s with
   | none => .ok []
   | some s => do
-    let l1 ← writeValuesLine (← T.get "selec1") s.integer
+    let l1 ← writeValuesLine (← T.get c!"selec1") s.integer
     let nlines ← selecLines s.integer.head?
-    let ls ← writeChunks (← T.get "selec2") 8 s.float s.float.length nlines
-    pure ([nl (k "SELEC"), l1] ++ ls)
+    let ls ← writeChunks (← T.get c!"selec2") 8 s.float s.float.length nlines
+    pure ([nl (c!"SELEC"), l1] ++ ls)
 
 def readSelection (rf : ReadFn) (T : Tabs) (ls : List Str) : Except Exc (Selection × List Str) := do
   let (l1, rest) := readline ls
-  let ints ← readValues rf (← T.get "selec1") l1
+  let ints ← readValues rf (← T.get c!"selec1") l1
   let nlines ← selecLines ints.head?
-  let (fl, rest) ← readChunks rf (← T.get "selec2") nlines rest
+  let (fl, rest) ← readChunks rf (← T.get c!"selec2") nlines rest
   pure ({ integer := ints, float := fl }, rest)
 
 /-! ### history requests (FOFT, COFT, GOFT) and SHORT -/
@@ -716,12 +722,12 @@ structure HConn where
   n2 : Str
   deriving Repr, DecidableEq
 
-def writeHistoryBlocks (kw : String) (items : List HItem) : List Str :=
-  if items.isEmpty then [] else [nl (k kw)] ++ items.map (fun i => nl (unfixBlockname i.name)) ++ [nl []]
+def writeHistoryBlocks (kw : Str) (items : List HItem) : List Str :=
+  if items.isEmpty then [] else [nl kw] ++ items.map (fun i => nl (unfixBlockname i.name)) ++ [nl []]
 
 def writeHistoryConns (items : List HConn) : List Str :=
   if items.isEmpty then [] else
-    [nl (k "COFT")] ++ items.map (fun i => nl (unfixBlockname i.n1 ++ unfixBlockname i.n2)) ++ [nl []]
+    [nl (c!"COFT")] ++ items.map (fun i => nl (unfixBlockname i.n1 ++ unfixBlockname i.n2)) ++ [nl []]
 
 /-- `read_history_blocks` / `read_history_generators`: names are checked against the grid when it has blocks -/
 def readHistoryBlocks (blocks : List Block) (ls : List Str) : Except Exc (List HItem × List Str) := do
@@ -752,17 +758,17 @@ def writeShort (s : Short) : Except Exc (List Str) :=
       | some v => if v.truthy then fmtVal { raw := ['2'], width := 2, left := false, prec := none, typ := 'd' } v else pure []
       | none => pure []
     let b := match s.block with
-      | some ns => nl (k "ELEME") :: ns.map (fun n => nl (unfixBlockname n))
+      | some ns => nl (c!"ELEME") :: ns.map (fun n => nl (unfixBlockname n))
       | none => []
     let c := match s.connection with
-      | some ns => nl (k "CONNE") :: ns.map (fun n => nl (unfixBlockname n.1 ++ unfixBlockname n.2))
+      | some ns => nl (c!"CONNE") :: ns.map (fun n => nl (unfixBlockname n.1 ++ unfixBlockname n.2))
       | none => []
     let g := match s.generator with
-      | some ns => nl (k "GENER") :: ns.map (fun n => nl (unfixBlockname n.1 ++ unfixBlockname n.2))
+      | some ns => nl (c!"GENER") :: ns.map (fun n => nl (unfixBlockname n.1 ++ unfixBlockname n.2))
       | none => []
-    pure ([nl (k "SHORT" ++ f)] ++ b ++ c ++ g ++ [nl []])
+    pure ([nl (c!"SHORT" ++ f)] ++ b ++ c ++ g ++ [nl []])
 
-def shortKeywords : List Str := [k "ELEME", k "CONNE", k "GENER"]
+def shortKeywords : List Str := [c!"ELEME", c!"CONNE", c!"GENER"]
 
 /-- the loop shared by `read_short_blocks/connections/generators`: items until a blank line (returned) or a
     sub-keyword line (returned) -/
@@ -782,7 +788,7 @@ def readShortItems {α} (item : Str → Except Exc (Option α)) : List Str → E
 /-- `read_short_output(infile, headerline)` -/
 def readShort (rf : ReadFn) (T : Tabs) (blocks : List Block) (conns : List Conn) (gens : List Gener)
     (s0 : Short) (header : Str) (ls : List Str) : Except Exc (Short × List Str) := do
-  let vals ← readValues rf (← T.get "short") header
+  let vals ← readValues rf (← T.get c!"short") header
   let s := if vals.length > 1 then { s0 with frequency := some (vals.getD 1 .none) } else s0
   let rec loop : Nat → Short → Str → List Str → Except Exc (Short × List Str)
     | 0, _, _, _ => .error .generic
@@ -790,20 +796,20 @@ def readShort (rf : ReadFn) (T : Tabs) (blocks : List Block) (conns : List Conn)
       if isBlank line then .ok (s, rest)
       else
         let kw := slice line 0 5
-        if kw == k "ELEME" then
+        if kw == c!"ELEME" then
           match readShortItems (fun l => do
               let n ← fixBlockname (slice l 0 5)
               pure (if blocks.any (·.name == n) then some n else none)) rest with
           | .error e => .error e
           | .ok (items, nxt, r) => loop fuel { s with block := some items } nxt r
-        else if kw == k "CONNE" then
+        else if kw == c!"CONNE" then
           match readShortItems (fun l => do
               let n1 ← fixBlockname (slice l 0 5)
               let n2 ← fixBlockname (slice l 5 10)
               pure (if conns.any (fun c => c.b1 == n1 && c.b2 == n2) then some (n1, n2) else none)) rest with
           | .error e => .error e
           | .ok (items, nxt, r) => loop fuel { s with connection := some items } nxt r
-        else if kw == k "GENER" then
+        else if kw == c!"GENER" then
           match readShortItems (fun l => do
               let n1 ← fixBlockname (slice l 0 5)
               let n2 ← fixBlockname (slice l 5 10)
@@ -845,7 +851,7 @@ inductive MeshMaker where
   | minc (m : Minc)
   deriving Repr, DecidableEq
 
-def writeCounted (T : Tabs) (rec1 rec2 : String) (xs : List Val) : Except Exc (List Str) := do
+def writeCounted (T : Tabs) (rec1 rec2 : Str) (xs : List Val) : Except Exc (List Str) := do
   let n := xs.length
   let l1 ← writeValuesLine (← T.get rec1) [.int n]
   let ls ← writeChunks (← T.get rec2) 8 xs n ((n + 7) / 8)
@@ -853,11 +859,11 @@ def writeCounted (T : Tabs) (rec1 rec2 : String) (xs : List Val) : Except Exc (L
 
 def writeRZ2D (T : Tabs) (subs : List RZSub) : Except Exc (List Str) := do
   let ls ← subs.mapM fun s => match s with
-    | .radii xs => do pure (nl (k "RADII") :: (← writeCounted T "radii1" "radii2" xs))
-    | .equid d => do pure [nl (k "EQUID"), ← writeValueLine (← T.get "equid") d]
-    | .logar d => do pure [nl (k "LOGAR"), ← writeValueLine (← T.get "logar") d]
-    | .layer xs => do pure (nl (k "LAYER") :: (← writeCounted T "layer1" "layer2" xs))
-  pure (nl (k "RZ2D") :: ls.flatten)
+    | .radii xs => do pure (nl (c!"RADII") :: (← writeCounted T c!"radii1" c!"radii2" xs))
+    | .equid d => do pure [nl (c!"EQUID"), ← writeValueLine (← T.get c!"equid") d]
+    | .logar d => do pure [nl (c!"LOGAR"), ← writeValueLine (← T.get c!"logar") d]
+    | .layer xs => do pure (nl (c!"LAYER") :: (← writeCounted T c!"layer1" c!"layer2" xs))
+  pure (nl (c!"RZ2D") :: ls.flatten)
 
 def countOf (v : Option Val) : Except Exc Val :=
   match v with
@@ -870,48 +876,48 @@ def readRZ2D (rf : ReadFn) (T : Tabs) : Nat → List Str → Except Exc (List RZ
   | fuel + 1, ls =>
     let (line, rest) := readline ls
     let kw := keywordOf line
-    if kw == k "RADII" then do
-      let nrad ← countOf (← readValues rf (← T.get "radii1") (readline rest).1).head?
+    if kw == c!"RADII" then do
+      let nrad ← countOf (← readValues rf (← T.get c!"radii1") (readline rest).1).head?
       let nlines ← ceilDiv nrad 8
-      let (vs, r) ← readChunks rf (← T.get "radii2") nlines (readline rest).2
+      let (vs, r) ← readChunks rf (← T.get c!"radii2") nlines (readline rest).2
       let (more, r') ← readRZ2D rf T fuel r
       pure (.radii (nonNone vs) :: more, r')
-    else if kw == k "EQUID" then do
-      let d ← readValueLine rf (← T.get "equid") [] (readline rest).1
+    else if kw == c!"EQUID" then do
+      let d ← readValueLine rf (← T.get c!"equid") [] (readline rest).1
       let (more, r') ← readRZ2D rf T fuel (readline rest).2
       pure (if d.isEmpty then more else .equid d :: more, r')
-    else if kw == k "LOGAR" then do
-      let d ← readValueLine rf (← T.get "logar") [] (readline rest).1
+    else if kw == c!"LOGAR" then do
+      let d ← readValueLine rf (← T.get c!"logar") [] (readline rest).1
       let (more, r') ← readRZ2D rf T fuel (readline rest).2
       pure (if d.isEmpty then more else .logar d :: more, r')
-    else if kw == k "LAYER" then do
-      let nlay ← countOf (← readValues rf (← T.get "layer1") (readline rest).1).head?
+    else if kw == c!"LAYER" then do
+      let nlay ← countOf (← readValues rf (← T.get c!"layer1") (readline rest).1).head?
       let nlines ← ceilDiv nlay 8
-      let (vs, r) ← readChunks rf (← T.get "layer2") nlines (readline rest).2
+      let (vs, r) ← readChunks rf (← T.get c!"layer2") nlines (readline rest).2
       let n ← match nlay with | .int i => pure i | _ => .error .typeError
       let xs := if n ≥ 0 then vs.take n.toNat else vs.take (vs.length - n.natAbs)
       pure ([.layer xs], r)
     else readRZ2D rf T fuel rest
 
 def writeXYZ (T : Tabs) (deg : Val) (subs : List XYZSub) : Except Exc (List Str) := do
-  let l1 ← writeValuesLine (← T.get "xyz1") [deg]
+  let l1 ← writeValuesLine (← T.get c!"xyz1") [deg]
   let ls ← subs.mapM fun s => do
-    let h ← writeValueLine (← T.get "xyz2") [(k "ntype", s.ntype), (k "no", s.no), (k "del", s.del)]
+    let h ← writeValueLine (← T.get c!"xyz2") [(c!"ntype", s.ntype), (c!"no", s.no), (c!"del", s.del)]
     if s.del.isZero then
       let nlines ← ceilDiv s.no 8
       let no ← match s.no with | .int i => pure i.toNat | _ => .error .typeError
       let deli ← match s.deli with | some d => pure d | none => .error .keyError
-      pure (h :: (← writeChunks (← T.get "xyz3") 8 deli no nlines))
+      pure (h :: (← writeChunks (← T.get c!"xyz3") 8 deli no nlines))
     else pure [h]
-  pure ([nl (k "XYZ"), l1] ++ ls.flatten ++ [nl []])
+  pure ([nl (c!"XYZ"), l1] ++ ls.flatten ++ [nl []])
 
 def readXYZSub (rf : ReadFn) (T : Tabs) (line : Str) (rest : List Str) : Except Exc (XYZSub × Nat) := do
-  let vs ← readValues rf (← T.get "xyz2") line
+  let vs ← readValues rf (← T.get c!"xyz2") line
   match vs with
   | [ntype, _, no, del] =>
     if del.isZero then
       let nlines ← ceilDiv no 8
-      let (vs, _) ← readChunks rf (← T.get "xyz3") nlines rest
+      let (vs, _) ← readChunks rf (← T.get c!"xyz3") nlines rest
       let n ← match no with | .int i => pure i | _ => .error .typeError
       let xs := if n ≥ 0 then vs.take n.toNat else vs.take (vs.length - n.natAbs)
       pure ({ ntype, no, del, deli := some xs }, nlines)
@@ -920,30 +926,30 @@ def readXYZSub (rf : ReadFn) (T : Tabs) (line : Str) (rest : List Str) : Except 
 
 def readXYZ (rf : ReadFn) (T : Tabs) (ls : List Str) : Except Exc (MeshMaker × List Str) := do
   let (l1, rest) := readline ls
-  let deg ← countOf (← readValues rf (← T.get "xyz1") l1).head?
+  let deg ← countOf (← readValues rf (← T.get c!"xyz1") l1).head?
   let (subs, r) ← untilBlank id (fun _ => false) (readXYZSub rf T) rest
   pure (.xyz deg subs, r)
 
 def writeMinc (T : Tabs) (m : Minc) : Except Exc (List Str) := do
-  let l1 ← writeValuesLine (← T.get "minc") [.str (k "PART "), m.type, .str [], m.dual]
+  let l1 ← writeValuesLine (← T.get c!"minc") [.str (c!"PART "), m.type, .str [], m.dual]
   let nvol := m.vol.length
-  let l2 ← writeValuesLine (← T.get "part1") ([m.numContinua, .int nvol, m.where_] ++ m.spacing)
-  let ls ← writeChunks (← T.get "part2") 8 m.vol nvol ((nvol + 7) / 8)
-  pure ([nl (k "MINC"), l1, l2] ++ ls)
+  let l2 ← writeValuesLine (← T.get c!"part1") ([m.numContinua, .int nvol, m.where_] ++ m.spacing)
+  let ls ← writeChunks (← T.get c!"part2") 8 m.vol nvol ((nvol + 7) / 8)
+  pure ([nl (c!"MINC"), l1, l2] ++ ls)
 
 /-- `read_meshmaker_minc` -/
 def readMinc (rf : ReadFn) (T : Tabs) (ls : List Str) : Except Exc (Option Minc × List Str) := do
   let (l0, rest) := readline ls
   let line := strip l0
-  if keywordOf line == k "PART" then
-    let vs ← readValues rf (← T.get "minc") line
+  if keywordOf line == c!"PART" then
+    let vs ← readValues rf (← T.get c!"minc") line
     match vs with
     | [_part, type, _dummy, dual] =>
       let (l1, rest) := readline rest
-      let p ← readValues rf (← T.get "part1") l1
+      let p ← readValues rf (← T.get c!"part1") l1
       let nvolV := p.getD 1 .none
       let nlines ← ceilDiv nvolV 8
-      let (vs, r) ← readChunks rf (← T.get "part2") nlines rest
+      let (vs, r) ← readChunks rf (← T.get c!"part2") nlines rest
       let n ← match nvolV with | .int i => pure i | _ => .error .typeError
       let vol := if n ≥ 0 then vs.take n.toNat else vs.take (vs.length - n.natAbs)
       pure (some { type, dual, numContinua := p.getD 0 .none, where_ := p.getD 2 .none, spacing := p.drop 3, vol }, r)
@@ -956,7 +962,7 @@ def writeMeshMaker (T : Tabs) (mm : List MeshMaker) : Except Exc (List Str) :=
       | .rz2d subs => writeRZ2D T subs
       | .xyz deg subs => writeXYZ T deg subs
       | .minc m => writeMinc T m
-    pure ([nl (k "MESHMAKER")] ++ ls.flatten ++ [nl []])
+    pure ([nl (c!"MESHMAKER")] ++ ls.flatten ++ [nl []])
 
 /-- `read_meshmaker`: sub-sections until a blank line -/
 def readMeshMaker (rf : ReadFn) (T : Tabs) : Nat → List MeshMaker → List Str → Except Exc (List MeshMaker × List Str)
@@ -967,15 +973,15 @@ def readMeshMaker (rf : ReadFn) (T : Tabs) : Nat → List MeshMaker → List Str
     | line :: rest =>
       if isBlank line then .ok (acc, rest) else
       let kw := keywordOf line
-      if kw == k "RZ2D" then
+      if kw == c!"RZ2D" then
         match readRZ2D rf T (rest.length + 2) rest with
         | .error e => .error e
         | .ok (subs, r) => readMeshMaker rf T fuel (acc ++ [.rz2d subs]) r
-      else if kw == k "XYZ" then
+      else if kw == c!"XYZ" then
         match readXYZ rf T rest with
         | .error e => .error e
         | .ok (m, r) => readMeshMaker rf T fuel (acc ++ [m]) r
-      else if kw == k "MINC" then
+      else if kw == c!"MINC" then
         match readMinc rf T rest with
         | .error e => .error e
         | .ok (m, r) => readMeshMaker rf T fuel (match m with | some m => acc ++ [.minc m] | none => acc) r
